@@ -67,20 +67,23 @@ class Calc(object):
                       | expression '|' expression
                       | expression LSHIFT expression
                       | expression RSHIFT expression"""
-        if p[2] == '+':
-            p[0] = p[1] + p[3]
-        elif p[2] == '-':
-            p[0] = p[1] - p[3]
-        elif p[2] == '*':
-            p[0] = p[1] * p[3]
-        elif p[2] == '/':
-            p[0] = p[1] // p[3]
-        elif p[2] == '<<':
-            p[0] = p[1] << p[3]
-        elif p[2] == '>>':
-            p[0] = p[1] >> p[3]
-        elif p[2] == '|':
-            p[0] = p[1] | p[3]
+        try:
+            if p[2] == '+':
+                p[0] = p[1] + p[3]
+            elif p[2] == '-':
+                p[0] = p[1] - p[3]
+            elif p[2] == '*':
+                p[0] = p[1] * p[3]
+            elif p[2] == '/':
+                p[0] = p[1] // p[3]
+            elif p[2] == '<<':
+                p[0] = p[1] << p[3]
+            elif p[2] == '>>':
+                p[0] = p[1] >> p[3]
+            elif p[2] == '|':
+                p[0] = p[1] | p[3]
+        except (ZeroDivisionError, ValueError) as e:
+            raise ParseError(str(e))
 
     @staticmethod
     def p_expression_uminus(p):
